@@ -2629,7 +2629,8 @@ ZSTD_reduceTable_internal (U32* const table, U32 const size, U32 const reducerVa
     for (rowNb=0 ; rowNb < nbRows ; rowNb++)
     ZSTD_VERIF_LOOP(
         __CPROVER_assigns(rowNb, cellNb, __CPROVER_object_whole(table))
-        __CPROVER_loop_invariant(0 <= rowNb && rowNb <= nbRows && cellNb == rowNb * ZSTD_ROWSIZE)
+        __CPROVER_loop_invariant(0 <= rowNb && rowNb <= nbRows && cellNb == rowNb * ZSTD_ROWSIZE
+                              && ZSTD_VERIF_GHOST_CELL_INV(table, size, cellNb))
         __CPROVER_decreases(nbRows - rowNb))
     {
         int column;
